@@ -17,6 +17,7 @@ func (w *W) attach() {
 		// map-order hooks keep shared state of their own, which the race detector would
 		// (rightly) see as unsynchronised between tasks, so the real ones run there.
 		slog.VerifYield = func(site int) { w.yield(ySiteFine + site) }
+		slog.VerifLock = lockHook{w}
 		return
 	}
 	slog.VerifNow = w.clock.Now
@@ -25,6 +26,7 @@ func (w *W) attach() {
 	slog.VerifPool = w.pool
 	slog.VerifMapOrder = w.mapOrder
 	slog.VerifYield = func(site int) { w.yield(ySiteFine + site) }
+	slog.VerifLock = lockHook{w}
 }
 
 func (w *W) detach() {
@@ -33,6 +35,7 @@ func (w *W) detach() {
 	slog.VerifPool = nil
 	slog.VerifMapOrder = nil
 	slog.VerifYield = nil
+	slog.VerifLock = nil
 }
 
 var _ = time.Now
